@@ -197,6 +197,8 @@ def run_vrt_scenario(exe, scen, job, deadline_s, outdir):
         cmd += ['--race-oracle']
     if job.get('no_cache'):
         cmd += ['--no-cache']
+    if job.get('spurious'):
+        cmd += ['--spurious']
     if job.get('max_viol'):
         cmd += ['--max-viol-execs', str(job['max_viol'])]
     r = sh(cmd)
@@ -310,7 +312,7 @@ def main():
                     if job.get('ignore') and any(re.search(p, sig) for p in job['ignore']):
                         continue
                     raw_viol.append(dict(engine='vrt', exe=exe, scenario=d['scenario'], sig=sig, detail=det, schedule=v['schedule'],
-                                         racy_pcs=','.join([x for x in d['racy_pcs'].split(',') if x][:v.get('nracy', 10**6)]), race_oracle=int(bool(job.get('race_oracle'))), count=v['count'],
+                                         racy_pcs=','.join([x for x in d['racy_pcs'].split(',') if x][:v.get('nracy', 10**6)]), race_oracle=int(bool(job.get('race_oracle'))), spurious=int(bool(job.get('spurious'))), count=v['count'],
                                          log=v['log'], raw_sig=v['sig']))
             agg['states'] += jstat['states']
             agg['transitions'] += jstat['transitions']
@@ -365,7 +367,7 @@ def main():
         path = os.path.join(replay_dir, f'{n:02d}.json')
         if v['engine'] == 'vrt':
             rep = dict(property=pid, engine='vrt', scenario=v['scenario'], schedule=v['schedule'], racy_pcs=v['racy_pcs'],
-                       race_oracle=v['race_oracle'], signature=sig, raw_signature=v['raw_sig'], detail=v['detail'], event_log=v['log'],
+                       race_oracle=v['race_oracle'], spurious=int(bool(v.get('spurious'))), signature=sig, raw_signature=v['raw_sig'], detail=v['detail'], event_log=v['log'],
                        binary=os.path.relpath(v['exe'], ROOT), note='racy_pcs are addresses in this build of the binary')
             json.dump(rep, open(path, 'w'), indent=1)
             # replay twice in fresh processes; the outcome must be identical and must reproduce the signature
